@@ -178,7 +178,7 @@ def run(ctx):
         ('G-exec-twins-odd', 60, 1000, dict(twins='odd')),
         ('G-exec-early-reuse', 120, 2000, dict(p_bad=1.0, bad_kinds=['asg-early-reuse'])),
         ('G-exec-badsusp', 120, 2000, dict(p_bad=1.0, bad_kinds=['susp-mid', 'susp-mid', 'susp-suspending', 'susp-suspending', 'susp-suspended', 'susp-suspended', 'susp-dup',
-                                                                   'susp-unknown', 'susp-wrongpool'])),
+                                                                   'susp-unknown', 'susp-wrongpool', 'asg-resume-suspending'])),
     ], nontrivial=lambda run: any(e['cmd']['susp'] for e in run.trace))
     import collections
     st = collections.Counter(out['dist'])
